@@ -662,6 +662,12 @@ def cycle_guard(P, comp):
 _guard_cache = {}
 
 
+def nesting_guards(P):
+    """keys of the functions recognised as nesting guards in front of the line parser"""
+    parser_entry_guarded(P)
+    return set(_guard_cache.get("guards", set()))
+
+
 def parser_entry_guarded(P):
     """every call of the recursive line parser from hand-written code is dominated by the true edge of a nesting guard applied to the same text"""
     if "v" in _guard_cache:
@@ -729,6 +735,7 @@ def parser_entry_guarded(P):
                 # `if !guard(..) { bail }` puts the parser call on the true edge's continuation as well
                 if G.dominates(idom, true_edge, bb):
                     ok = True
+                    _guard_cache.setdefault("guards", set()).add(gk[0])
             if not ok:
                 bad.append(k)
     res = (not bad and n > 0, "every call of the line parser (%d) is behind the nesting guard, so recursion depth <= the guard's limit" % n if not bad and n else
